@@ -233,6 +233,15 @@ func runGenerated(c *fw.Ctx, bc *builtCorpus, prop string) {
 		c.BrokenProof = append(c.BrokenProof, "runner: "+err.Error())
 		return
 	}
+	// watchdog: a case that does not return within the budget is a finding (non-termination), not a hang
+	// of the check; the journal names the case that was running
+	budget := 15 * time.Minute
+	if c.Tier == "thorough" {
+		budget = 45 * time.Minute
+	}
+	timedOut := false
+	watchdog := time.AfterFunc(budget, func() { timedOut = true; cmd.Process.Kill() })
+	defer watchdog.Stop()
 	sc := bufio.NewScanner(pipe)
 	sc.Buffer(make([]byte, 1<<20), 1<<28)
 	for sc.Scan() {
@@ -260,6 +269,11 @@ func runGenerated(c *fw.Ctx, bc *builtCorpus, prop string) {
 	}
 	if err := cmd.Wait(); err != nil {
 		j, _ := os.ReadFile(journal)
+		if timedOut {
+			c.Violate(fw.Violation{Stream: "runner", Signature: "generated-code/no-return-within-budget", What: fmt.Sprintf("the generated-code runner did not finish within %v; the journal names the case that was running", budget),
+				Input: strings.TrimSpace(string(j)), Got: "killed by the watchdog"})
+			return
+		}
 		c.Violate(fw.Violation{Stream: "runner", Signature: "generated-code/crash", What: "the generated-code runner died (fatal error inside generated code or the codec): " + err.Error(),
 			Input: strings.TrimSpace(string(j)), Got: trunc(errb.String(), 1500)})
 	}
